@@ -242,6 +242,7 @@ class Facts:
         for v, x in nums:
             self.num_set(v, x)
         self.preds = list(preds)       # [value -> bool | None]
+        self.elements = None           # [Facts]: the elements of arrays (np.any / np.all quantify over them)
 
     def num_set(self, v, x):
         a = single_atom(v)
@@ -328,6 +329,13 @@ def truth(v, facts):
             return truth(a[2], facts)
         ra, rb = truth(a[1], facts), truth(a[2], facts)
         return ra if ra is not None and ra == rb else None
+    if nm in ("call:np.any", "call:np.all") and len(a) == 1 and facts is not None and getattr(facts, "elements", None):
+        rs = [truth(a[0], f) for f in facts.elements]
+        if any(r is None for r in rs):
+            return None
+        return any(rs) if nm.endswith("any") else all(rs)
+    if nm in ("call:np.any", "call:np.all") and len(a) == 1 and app(a[0], "tuple") is not None:
+        return truth(F.fn("bool:Or" if nm.endswith("any") else "bool:And", *app(a[0], "tuple")[1]), facts)
     if nm in ("call:bool", "call:np.any", "call:np.all") and len(a) == 1:
         return truth(a[0], facts)
     if nm.startswith("cmp:") and len(a) == 2:
@@ -399,9 +407,42 @@ class Trace:
         self.raises = []     # (node, guard)
         self.loops = []      # (symbol name, domain value, iterable value, node)
         self.inits = {}      # buffer symbol -> value it was created from
+        self.allocs = {}     # buffer symbol -> (allocator name, [positional values], {keyword: value}) when it was created by np.zeros / np.tile / ...
+        self.unbound = []    # (name, node, guard): a name read that nothing binds on the path (a local before its assignment, or no such global)
         self.seq = 0
         self.act = 0
         self.nver = {}
+
+
+def module_names(mod):
+    """names bound at module level (imports, definitions, assignments - also under if / try / with)"""
+    if getattr(mod, "_c10_names", None) is None:
+        import builtins
+        out = set(dir(builtins))
+        stack = list(mod.tree.body)
+        while stack:
+            n = stack.pop()
+            if isinstance(n, (ast.FunctionDef, ast.AsyncFunctionDef, ast.ClassDef)):
+                out.add(n.name)
+                # names declared global inside functions are module names as well
+                for x in ast.walk(n):
+                    if isinstance(x, ast.Global):
+                        out.update(x.names)
+                continue
+            if isinstance(n, (ast.Import, ast.ImportFrom)):
+                for a in n.names:
+                    out.add((a.asname or a.name).split(".")[0])
+                continue
+            for x in ast.walk(n):
+                if isinstance(x, ast.Name) and isinstance(x.ctx, ast.Store):
+                    out.add(x.id)
+                elif isinstance(x, (ast.Import, ast.ImportFrom)):
+                    for a in x.names:
+                        out.add((a.asname or a.name).split(".")[0])
+                elif isinstance(x, (ast.FunctionDef, ast.ClassDef)):
+                    out.add(x.name)
+        mod._c10_names = out
+    return mod._c10_names
 
 
 def module_consts(ctx, rel):
@@ -451,10 +492,18 @@ class XEval(AutoEvaluator):
         self.tmp = 0
         self.tr.act += 1
         self.act = self.tr.act
+        self.locals_ = set()
+        self.globals_ = None
         if fn is not None:
             a = fn.args
             for x in a.posonlyargs + a.args + a.kwonlyargs + ([a.vararg] if a.vararg else []) + ([a.kwarg] if a.kwarg else []):
                 self.env.setdefault(x.arg, F.sym(x.arg))
+            self.locals_ = {x.id for n in ast.walk(fn) for x in [n] if isinstance(x, ast.Name) and isinstance(x.ctx, ast.Store)}
+            for n in ast.walk(fn):
+                if isinstance(n, ast.Global):
+                    self.locals_ -= set(n.names)
+            mod = getattr(fn, "_vmod", None)
+            self.globals_ = module_names(mod) if mod is not None else None
             # a local created by an allocation is an array even when only helpers store into it (through a view passed as argument)
             for n in ast.walk(fn):
                 if isinstance(n, ast.Assign) and len(n.targets) == 1 and isinstance(n.targets[0], ast.Name) and isinstance(n.value, ast.Call) \
@@ -539,6 +588,9 @@ class XEval(AutoEvaluator):
 
     def _ev(self, node):
         if isinstance(node, ast.Name):
+            if node.id not in self.env and self.fn is not None and isinstance(node.ctx, ast.Load):
+                if node.id in self.locals_ or (self.globals_ is not None and node.id not in self.globals_):
+                    self.tr.unbound.append((node.id, node, tuple(self.path)))
             if node.id in self.buffers:
                 return self.env[node.id] if node.id in self.env else F.sym(node.id)
             return super()._ev(node)
@@ -637,6 +689,8 @@ class XEval(AutoEvaluator):
                 sp = str_parts(ix)
                 if sp is not None and len(sp) == 1 and isinstance(sp[0], str) and sp[0] in self.env:
                     return self.env[sp[0]]
+                if sp is not None and len(sp) == 1 and isinstance(sp[0], str):
+                    self.tr.unbound.append((sp[0], node, tuple(self.path)))
                 return Unknown(f"locals()[{ix!r}]")
             return self.mk_idx(base, ix)
         if isinstance(node, ast.BinOp) and isinstance(node.op, ast.MatMult):
@@ -961,7 +1015,14 @@ class XEval(AutoEvaluator):
 
     def _assign(self, target, v, st, aug=False):
         if isinstance(target, ast.Name) and target.id in self.buffers:
-            self._new_version(target.id, v)
+            sname = self._new_version(target.id, v)
+            val = getattr(st, "value", None)
+            if isinstance(val, ast.Call) and dotted(val.func) in ALLOCATORS and not aug:
+                try:
+                    self.tr.allocs[sname] = (dotted(val.func), [self.ev(a) for a in val.args if not isinstance(a, ast.Starred)],
+                                             {k.arg: self.ev(k.value) for k in val.keywords if k.arg})
+                except Unsupported:
+                    pass
             return
         if isinstance(target, (ast.Tuple, ast.List)) and not isinstance(v, tuple) and not is_unknown(v) and v is not None \
                 and not any(isinstance(t, ast.Starred) for t in target.elts):
